@@ -40,9 +40,9 @@ RULE = (
     'range, value lengths biased to k*(MTU-1)+{-1,0,1}, MTU-3+{-1,0,1}, 0, 512; optional default '
     'GAP/GATT services in front; server max MTU and client MTU preference 23..517 (or no exchange); '
     '1..3 client devices with 0..2 EATT bearers each (L2CAP MTU 64..517 or default on both sides); '
-    'operation lists of read/write/subscribe/unsubscribe/notify_subscribers/indicate_subscribers/'
-    'notify_subscriber/indicate_subscriber (connection or one bearer, forced or not). Every client '
-    'runs the full discovery; everything readable is read on client 0. non-trivial = some discovery '
+    'operation lists of read/write/subscribe (one bearer or all bearers)/unsubscribe/notify_subscribers/indicate_subscribers/'
+    'notify_subscriber/indicate_subscriber (connection or one bearer, forced or not; also "the API matching the latest subscription"). Every client '
+    'runs the full discovery; everything readable is read on client 0, every generated characteristic value on every EATT bearer. non-trivial = some discovery '
     'step needed >=2 response PDUs, or UUID widths are mixed inside one discovery range, or a long '
     'read happened, or a server send had >=2 subscribed bearers. '
     'B (script): one discovery procedure (all six, generated handle ranges for the range-based ones) '
@@ -271,20 +271,24 @@ def db_case(draw):
         )
 
     idx = st.integers(0, 15)
+    # subscriptions and sends concentrate on few characteristics so that bearers share one
+    cidx = st.one_of(st.just(0), st.just(0), st.integers(0, 2), idx)
     vlen = st.one_of(st.none(), lengths, lengths)
-    sub = st.tuples(st.just('sub'), idx, idx, st.booleans())
+    sub = st.tuples(st.just('sub'), idx, cidx, st.booleans())
     op = st.one_of(
         sub,
-        st.tuples(st.just('unsub'), idx, idx),
-        st.tuples(st.just('notify_all'), idx, vlen, st.integers(0, 255)),
-        st.tuples(st.just('indicate_all'), idx, vlen, st.integers(0, 255)),
-        st.tuples(st.just('notify_one'), idx, idx, vlen, st.integers(0, 255), st.booleans()),
-        st.tuples(st.just('indicate_one'), idx, idx, vlen, st.integers(0, 255), st.booleans()),
-        st.tuples(st.just('indicate_one'), idx, idx, vlen, st.integers(0, 255), st.booleans()),
+        st.tuples(st.just('unsub'), idx, cidx),
+        st.tuples(st.just('notify_all'), cidx, vlen, st.integers(0, 255)),
+        st.tuples(st.just('indicate_all'), cidx, vlen, st.integers(0, 255)),
+        st.tuples(st.just('notify_one'), idx, cidx, vlen, st.integers(0, 255), st.sampled_from([False, True, False])),
+        st.tuples(st.just('indicate_one'), idx, cidx, vlen, st.integers(0, 255), st.sampled_from([False, True, False])),
+        st.tuples(st.just('matching_all'), cidx, vlen, st.integers(0, 255)),
+        st.tuples(st.just('matching_one'), idx, cidx, vlen, st.integers(0, 255), st.sampled_from([False, False, True])),
         st.tuples(st.just('write'), idx, idx, lengths, st.integers(0, 255), st.booleans()),
         st.tuples(st.just('read'), idx, idx, st.booleans()),
     )
-    ops = [list(o) for o in draw(st.lists(sub, min_size=0, max_size=4))] + [list(o) for o in draw(st.lists(op, min_size=0, max_size=10))]
+    sub_all = st.tuples(st.just('sub_all'), cidx, st.booleans())
+    ops = [list(o) for o in draw(st.lists(st.one_of(sub, sub, sub_all), min_size=0, max_size=5))] + [list(o) for o in draw(st.lists(op, min_size=0, max_size=10))]
     return {
         'kind': 'db',
         'defaults': draw(st.sampled_from([False, False, True])),
@@ -395,7 +399,7 @@ def parse_layout(attributes):
 
 def check_db_against_description(case, objs, L):
     """The database the server exposes is the one it was given (grouping, order, include ranges)."""
-    problems = list(L['problems'])
+    problems = []
     services = case['services']
     n = len(services)
     by_obj = {id(s['obj']): s for s in L['services']}
@@ -431,7 +435,7 @@ def check_db_against_description(case, objs, L):
                 f'service #{i} (0x{ls["handle"]:04X}-0x{ls["end"]:04X}) groups {len(got_chars)} characteristic(s) '
                 f'{[(c["decl"], hx(c["uuid"])) for c in ls["chars"]]}, it was given {len(want_chars)}'
             )
-    return problems
+    return problems + list(L['problems'])
 
 
 # ---------------------------------------------------------------------------
@@ -578,6 +582,21 @@ async def _drive_db(loop, case, S, fail):
         _length_labels(labels, len(expected), b0['mtu'])
         if len(expected) > b0['mtu'] - 1:
             S['nontrivial'] = True
+
+    # ---- and the generated characteristic values on every enhanced bearer
+    for b in bearers:
+        if not b['enh']:
+            continue
+        for lc in my_chars:
+            if lc['vh'] not in b['chars']:
+                continue
+            expected = bytes(lc['value_obj'].value)
+            if not await _read_and_compare(S, fail, b, lc['vh'], expected, 'characteristic value'):
+                raise _Abort()
+            labels.add('read_on_eatt')
+            if len(expected) > b['mtu'] - 1:
+                labels.add('long_read_on_eatt')
+                S['nontrivial'] = True
 
     # ---- operations
     await _run_ops(loop, case, S, fail, sniffer, server, L, my_chars, sub_chars, bearers)
@@ -807,8 +826,14 @@ async def _run_ops(loop, case, S, fail, sniffer, server, L, my_chars, sub_chars,
             callbacks[key] = fired[key].append
         return callbacks[key]
 
+    expanded = []
     for op in case['ops']:
         op = list(op)
+        if op[0] == 'sub_all':  # every bearer subscribes to the same characteristic
+            expanded.extend(['sub', bi, op[1], op[2]] for bi in range(len(bearers)))
+        else:
+            expanded.append(op)
+    for op in expanded:
         name = op[0]
         if name in ('sub', 'unsub'):
             if not sub_chars:
@@ -885,14 +910,21 @@ async def _run_ops(loop, case, S, fail, sniffer, server, L, my_chars, sub_chars,
         else:
             if not sub_chars:
                 continue
-            if name in ('notify_all', 'indicate_all'):
-                lc = sub_chars[op[1] % len(sub_chars)]
+            # the characteristic index counts back from the most recently subscribed one (if any)
+            recent = [c for vh in reversed(list(dict.fromkeys(vh for (_bi, vh) in reversed(list(subs))))) for c in sub_chars if c['vh'] == vh]
+            pool = (recent[::-1] + [c for c in sub_chars if c not in recent]) if recent else sub_chars
+            if name in ('notify_all', 'indicate_all', 'matching_all'):
+                lc = pool[op[1] % len(pool)]
                 vlen, seed = op[2], op[3]
                 target, force = None, False
             else:
                 target = op[1] % len(bearers)
-                lc = sub_chars[op[2] % len(sub_chars)]
+                lc = pool[op[2] % len(pool)]
                 vlen, seed, force = op[3], op[4], bool(op[5])
+            if name.startswith('matching'):
+                # the API whose kind matches the latest subscription to this characteristic
+                latest = [k for (_bi, vh), k in subs.items() if vh == lc['vh']]
+                name = ('indicate' if latest and latest[-1] == 'i' else 'notify') + name[len('matching'):]
             indicate = name.startswith('indicate')
             want_kind = 'i' if indicate else 'n'
             attribute = lc['value_obj']
@@ -1297,13 +1329,18 @@ def run_script_case(ctx, case) -> None:
 # ---------------------------------------------------------------------------
 def run(ctx) -> None:
     vloop.selftest()
-    ctx.hyp('db', lambda c: run_db_case(ctx, c), db_case(), max_examples=ctx.n(220, 8000))
-    ctx.hyp('script', lambda c: run_script_case(ctx, c), script_case(), max_examples=ctx.n(700, 24000))
+    ctx.hyp('db', lambda c: run_db_case(ctx, c), db_case(), max_examples=ctx.n(220, 32000))
+    ctx.hyp('script', lambda c: run_script_case(ctx, c), script_case(), max_examples=ctx.n(1200, 240000))
     for label, n in (
         ('clients:2', 5), ('clients:3', 3), ('eatt_bearer', 5), ('included_service', 10), ('secondary_service', 10),
         ('include_registered_through_includer', 5), ('long_read', 10), ('value_len:0', 5), ('value_len:512', 3),
         ('script:empty', 10), ('script:non_advancing', 10), ('script:err_unexpected', 10), ('script:wrong', 10),
-        ('script:repeat', 10), ('script:tail_repeat', 10),
+        ('script:repeat', 10), ('script:tail_repeat', 10), ('two_subscribed_bearers', 5), ('send_with_subscriber', 10),
+        ('send_truncated', 5), ('mixed_uuid_widths:services', 10), ('mixed_uuid_widths:characteristics', 10),
+        ('mixed_uuid_widths:descriptors', 10), ('multi_pdu:services', 10), ('multi_pdu:characteristics', 10),
+        ('multi_pdu:descriptors', 10), ('write:request', 3), ('write:command', 3), ('subscribe:notify', 10),
+        ('subscribe:indicate', 10), ('send:indicate_subscriber:eatt_target', 3), ('send:notify_subscriber:eatt_target', 3),
+        ('hci_delays', 10), ('read_on_eatt', 10), ('long_read_on_eatt', 3),
     ):
         ctx.floor(label, n)
     for p in PROCS:
